@@ -381,3 +381,8 @@ CHECKS['C02']["level_text"] = 'Proved (Qed, closed) at object level for the No-C
 CHECKS['C03']["level_text"] = 'Proved for every receiver history: no writer is both completed and failed (C03_never_complete_and_failed_history, from the C09 invariant). Proved at object level for No-Code without content encoding (C03_nocode_complete_implies_exact): for ANY list of genuine packets (any order, subset, multiplicity, close flags), whatever write() and the MD5 check answer, the bytes written are always a prefix of the content and a writer is completed only if it was written exactly the content. Other schemes, content encodings and altered payloads (guarded by MD5, named assumption) are evaluated on every run over permutations, sub-multisets, duplications and payload alterations - partial.'
 CHECKS['C13']["level_text"] = 'Proved (Qed, closed) for EVERY operation history of the sender model with strictly ascending queue keys (a BTreeMap in the code) and no add_object under the TOI of an object still queued or in a slot (what the TOI allocator guarantees; both premises shown necessary by refuting Examples): whenever a read returns an object packet of priority p no queue of smaller key was ready in the state before the read (C13_strict_priority, via an invariant established by init_st and preserved by every op); the start/stop events of every read of the model satisfy the event predicate evaluated on the implementation - FIFO admission within a queue and at most max(1, multiplex_files) objects of a queue in transmission (C13_events_read, C13_events_reachable); first queue with a packet wins; slots per queue constant; FIFO admission of get_next_file_transfer; window refill order (interleave). The unrestricted statement is refuted (C13_strict_priority_full_refuted: TOI reuse confuses the TOI-to-priority lookup of the predicate, not the scheduling). Correspondence: the Gallina model agrees with the implementation op by op on every generated scenario; P_C13_priority and P_C13_events are evaluated on the packets and events of the implementation on every run.'
 CHECKS['C14']["level_text"] = 'Proved (Qed, closed) for EVERY operation history of the sender model with pairwise distinct TOIs of accepted adds and non-decreasing read instants (both premises shown necessary by refuting Examples; the unrestricted statement is refuted): every object packet is emitted at or after the start time of its object, at or after transfer start + i x tick for the i-th packet of a paced transfer, and a carousel transfer begins only after the configured delay/interval - outside the recorded class D23 (C14_timing). Building blocks: eligibility implies start time reached and carousel gap elapsed; every emitted packet passed the pacing gate; starting a transfer is total. With a clock that goes back, a packet can precede the start time (nothing re-checks it after the first packet): callers must pass non-decreasing instants. Known finding D23 (carousel with max_transfer_count >= 2). Correspondence: the Gallina model agrees with the implementation op by op on every generated scenario; P_C14_* are evaluated on the implementation on every run.'
+CHECKS['C01']["level_text"] = 'Proved (Qed, closed) at object level for the No-Code scheme, by composing the sender theorem C08_transfer_full with the receiver theorem C02_nocode_recoverable_delivers through the wire bridge to_apkt (Proofs/C01Full.v): for every accepted No-Code configuration (E < 65536, blocks of at most 65536 symbols, window >= 1), every non-empty content and the stated environment premises (writer accepts, writes succeed, MD5 absent or matching, object within max_size_allocated, at most 4097 blocks), feeding ALL packets the sender model emits for one transfer, in order, into a fresh object receiver with the FDT entry attached yields Completed and a writer that received open, writes concatenating to the content, one complete (C01_clean_channel_nocode; also after any earlier genuine packets). The proof attempt exposed D39 (16-bit ESI wrap for blocks above 65536 symbols: replayed, fixed). Other schemes, content encodings, metadata, several objects, receive-once and the FDT transport are evaluated on every run by P_C01_object over real sender->receiver sessions tied to both models op by op - partial in that respect. Also proved: the sender emits every encoding symbol once in order (C08), stream/file sources equal the buffer source (C20), first copy wins, a completed block is the concatenation of its symbols. Findings D20, D35 recorded. The filesystem-writer clause is covered by C05.'
+CHECKS['C16']["level_text"] = "Proved (Qed, closed) at object level for the No-Code scheme (Proofs/C01Full.v): for every accepted configuration and non-empty content, a receiver that sees any suffix of one carousel transfer followed by one whole further transfer (skipn j pkts ++ pkts, every j) - more generally any list of genuine packets without close flag that contains one whole transfer - delivers the object complete and byte-exact (C16_late_join_delivers_nocode, C16_any_superset_of_a_cycle_delivers_nocode); a carousel object is never finished (queued again after each transfer); completed objects ignore packets. Other schemes, the FDT transport (mid-FDT joins) and several objects are evaluated on every run for every join offset of real carousel sessions (P_C16_object), incl. empty objects (D37 found there by a seeded-change agent's remark, fixed) - partial in that respect."
+CHECKS['C12']["level_text"] = "Proved (Qed, closed) for EVERY operation history of the sender model whose accepted adds have pairwise distinct TOIs and max_transfer_count >= 1 or a carousel (the domain of the property; both halves shown necessary by refuting Examples): P_C12_wire holds of the trace - no packet of an object never added, a non-carousel object puts at most max_transfer_count x max(1, npk) packets on the wire, after a successful remove at most the remainder of the current transfer (or one packet, carrying the close flag, when the object may be stopped at once) (C12_lifecycle_full); and the transfer counter reported for every listed object is within one of the whole transfers seen on the wire and below max for non-carousel objects, after every operation (C12_counter_full). Building blocks: a transfer is exactly its packets with the flag last iff last transfer; forced read once; counters; expiry decision. Not formalised: the 'finitely many packets at a fixed instant' sentence (checked on every run: the q operation reads until nothing, bounded by a watchdog). Correspondence: the Gallina model agrees with the implementation op by op on every generated scenario."
+CHECKS['C02']["level_text"] = 'Proved (Qed, closed) at object level (Proofs/C02Full.v, C02RS.v): a fresh object receiver with the FDT entry attached, fed ANY list of genuine packets in any order with any duplication, ends Completed with the writer having received open, writes concatenating to the content, one complete - for No-Code when every source symbol occurs (C02_nocode_recoverable_delivers), for Reed-Solomon GF(2^8) (FEC 5 and 129) when every block has k distinct symbols, under the explicit oracle hypothesis rs_oracle_mds (the decoder returns the block given >= k genuine shards; part of the trusted base, shown necessary by rs_wrong_decoder_corrupts), and for RaptorQ/Raptor when all source symbols arrive (oracle hypotheses fq_oracle_sound/complete). Premises each shown necessary by an Example: object within max_size_allocated (k x E accounting for FEC 129), at most 4097 blocks ahead, a close-object flag only once the reception is recoverable, non-empty object, writer accepts. Content encodings and the session level (FDT transport, several objects) are evaluated on every run (P_C02_object over every subset/duplication of real sessions), not proved - partial. For an empty object the premise is read as: its packet arrives.'
+CHECKS['C03']["level_text"] = 'Proved for every receiver history: no writer is both completed and failed (C03_never_complete_and_failed_history, from the C09 invariant). Proved at object level (C03_nocode_complete_implies_exact; Reed-Solomon and RaptorQ/Raptor under the oracle soundness hypotheses rs_oracle_sound / fq_oracle_sound): for ANY list of genuine packets (any order, subset, multiplicity, close flags), whatever write() and the MD5 check answer, the bytes written are always a prefix of the content and a writer is completed only if it was written exactly the content. Content encodings and altered payloads (guarded by MD5, named assumption) are evaluated on every run over permutations, sub-multisets, duplications and payload alterations - partial.'
